@@ -102,7 +102,9 @@ class PersistentRemoteWorker(PersistentWorker, RemoteWorker):
                         logger.debug('New message signalling end of partial results')
                         self._results_pipe.child_end.put(result)
                         last_partial_result_signalled = True
-                        assert remote_counter == counter, f'{remote_counter} {counter}'
+                        if remote_counter != counter:
+                            # the child counts a result before sending it, the numbers differ if it was interrupted (terminate) or failed while sending
+                            logger.debug('The child reports {} results but {} have been received', remote_counter, counter)
                         assert value is None
                         assert wid == self.id
                     else:
